@@ -14,7 +14,7 @@ import time as _real_time
 
 from ..leanclient import hx
 
-TRANSLATORS = []
+TRANSLATORS = ["resume"]
 
 MANIFEST = {
     "text": "Proof: Tls.Resume (Lean model mirroring _serverGetClientHello's resumption block, _ticket_to_session, _tryDecrypt, "
@@ -1641,6 +1641,89 @@ def execute_ops(ctx, ops, label="replay"):
     return h
 
 
+def payload_codec(ctx):
+    """SessionTicketPayload.create / write / parse against Tls.Ticket (byte level)"""
+    from harness import lab
+    from tlslite.messages import SessionTicketPayload
+    from tlslite.utils.codec import Parser, Writer
+    lc = ctx.lean()
+    if lc is None:
+        return
+    rng = ctx.rng
+
+    def rb(n):
+        return bytes(rng.getrandbits(8) for _ in range(n))
+
+    def fields(t):
+        w = Writer()
+        for e in (t._cert_chain or []):
+            w.bytes += e.write()
+        return (t.version, bytes(t.master_secret), t.protocol_version[0], t.protocol_version[1], t.cipher_suite,
+                bytes(t.nonce), t.creation_time, bytes(w.bytes), bool(t.encrypt_then_mac), bool(t.extended_master_secret),
+                bytes(t.server_name))
+
+    def fmt(f):
+        return "%d %s %d %d %d %s %d %s %d %d %s" % (f[0], hx(f[1]), f[2], f[3], f[4], hx(f[5]), f[6], hx(f[7]),
+                                                       int(f[8]), int(f[9]), hx(f[10]))
+
+    chains = [None, lab.creds("client_rsa")[0], lab.creds("client_ecdsa")[0]]
+    n = ctx.pick(120, 1500)
+    for i in range(n):
+        chain = rng.choice(chains)
+        etm, ems = rng.random() < 0.5, rng.random() < 0.5
+        sn = rng.choice([b"", b"", b"host.example", rb(rng.randrange(1, 40))])
+        ms = rb(rng.choice([0, 32, 48, 48, 255]))
+        ver = rng.choice([(3, 0), (3, 1), (3, 2), (3, 3), (3, 4)])
+        t = SessionTicketPayload().create(bytearray(ms), ver, rng.randrange(0, 65536), rng.randrange(0, 2 ** 40),
+                                          bytearray(rb(rng.choice([0, 16, 32]))), client_cert_chain=chain,
+                                          encrypt_then_mac=etm, extended_master_secret=ems, server_name=bytearray(sn))
+        f = fields(t)
+        wire = bytes(t.write())
+        ctx.case(key=("tp", wire), sample=None)
+        ctx.count("payload:version=%d" % f[0])
+        m_ver = lc.ask("tpc %d %d %d %s" % (int(chain is not None), int(etm), int(ems), hx(sn)))
+        m_wire = lc.ask("tpw " + fmt(f))
+        m_parse = lc.ask("tpp " + hx(wire))
+        ctx.compared(3)
+        if m_ver != str(f[0]):
+            ctx.disagree("ticket-payload-create", {"chain": chain is not None, "etm": etm, "ems": ems, "sn": sn.hex()}, m_ver, f[0])
+        if m_wire != hx(wire):
+            ctx.disagree("ticket-payload-write", {"fields": fmt(f)}, m_wire[:200], wire.hex()[:200])
+        back = SessionTicketPayload().parse(Parser(bytearray(wire)))
+        if fields(back) != f:
+            ctx.violation("c13:ticket-payload-roundtrip", "SessionTicketPayload.parse(write(p)) != p",
+                          {"stage": "payload", "wire": wire.hex(), "fields": fmt(f), "back": fmt(fields(back))})
+        if m_parse != fmt(f):
+            ctx.disagree("ticket-payload-parse", {"wire": wire.hex()[:400]}, m_parse[:200], fmt(f)[:200])
+        # malformed plaintexts (no certificate chain inside: its entries are opaque to the model)
+        if chain is None:
+            for _ in range(4):
+                b = bytearray(wire)
+                kind = rng.choice(["truncate", "extend", "byte", "version", "len"])
+                if kind == "truncate":
+                    b = b[:rng.randrange(0, len(b))]
+                elif kind == "extend":
+                    b += rb(rng.randrange(1, 4))
+                elif kind == "byte":
+                    b[rng.randrange(len(b))] ^= 1 << rng.randrange(8)
+                elif kind == "version":
+                    b[1] = rng.choice([0, 1, 2, 3, 255])
+                else:
+                    b[rng.choice([2, 3])] ^= 1 << rng.randrange(8)
+                try:
+                    r = SessionTicketPayload().parse(Parser(bytearray(b)))
+                    impl = fmt(fields(r)) if not (r._cert_chain) else None
+                except Exception:  # ValueError / DecodeError: the ticket is not usable
+                    impl = "none"
+                if impl is None:
+                    continue
+                mm = lc.ask("tpp " + hx(bytes(b)))
+                ctx.compared()
+                ctx.count("payload-mutation:" + kind)
+                if mm != impl:
+                    ctx.disagree("ticket-payload-parse-malformed", {"wire": bytes(b).hex()[:400], "kind": kind}, mm[:200], impl[:200])
+
+
 def run(ctx):
     # the budget counts from here (the lean build before may have waited for the shared lake lock)
     ctx.budget_s = ctx.elapsed() + ctx.pick(105, 1020)
@@ -1658,6 +1741,7 @@ def run(ctx):
         "age == lifetime exactly, and a lifetime changed between issue and use, are unspecified in the oracle (the model mirrors "
         "the code's strict '<')",
     ]
+    payload_codec(ctx)
     runs = scripted(ctx)
     n = 0
     while not ctx.out_of_time(0.97) and n < ctx.pick(2000, 20000):
